@@ -1361,7 +1361,13 @@ def std_oracle(interp, env, f, args, t, bb, path):
         if name in ("unwrap", "expect", "unwrap_or_else", "unwrap_or", "unwrap_or_default"):
             if isok:
                 return inner
-            return "DIVERGE" if name in ("unwrap", "expect") else TOP
+            if name in ("unwrap", "expect"):
+                return "DIVERGE"
+            if name == "unwrap_or" and len(args) == 2:
+                return args[1]
+            if name == "unwrap_or_default":
+                return _default_of(interp, (f.get("gargs") or [""])[0])
+            return TOP
         if name == "is_ok":
             return isok
         if name == "is_err":
@@ -1384,7 +1390,19 @@ def std_oracle(interp, env, f, args, t, bb, path):
         if name in ("unwrap", "expect", "unwrap_or_else", "unwrap_or", "unwrap_or_default"):
             if issome:
                 return inner
-            return "DIVERGE" if name in ("unwrap", "expect") else TOP
+            if name in ("unwrap", "expect"):
+                return "DIVERGE"
+            if name == "unwrap_or" and len(args) == 2:
+                return args[1]
+            if name == "unwrap_or_default":
+                return _default_of(interp, (f.get("gargs") or [""])[0])
+            if name == "unwrap_or_else" and len(args) == 2:
+                outs_ = interp.call_value(args[1], [])
+                if outs_ and len(outs_) == 1 and outs_[0][2] == "return":
+                    interp.mstate.clear()
+                    interp.mstate.update(outs_[0][3])
+                    return outs_[0][0]
+            return TOP
         if name == "is_some":
             return issome
         if name == "is_none":
